@@ -20,12 +20,15 @@ type AV struct {
 	Kind string // "const" | "nil" | "nonnil" | "sym" | "tuple" | "unknown"
 	C    constant.Value
 	Sym  string
-	Neg  bool // for sym: arithmetic negation
+	Neg  bool  // for sym: arithmetic negation
 	Off  int64 // for sym: a constant added to it (i+1)
 	Tup  []AV
 	Fn   *ssa.Function // Kind "func": a decided function value
+	Bind []AV          // Kind "func": what a closure has captured, indexed like Fn.FreeVars
 	// Kind "struct": field path (".f0", ".f1.f0") -> value
 	Fields map[string]AV
+	// Dyn: the dynamic type, once the value has been boxed in an interface on the decided path
+	Dyn types.Type
 }
 
 func avConst(c constant.Value) AV { return AV{Kind: "const", C: c} }
@@ -361,33 +364,11 @@ func (r *decideRun) eval1(v ssa.Value) AV {
 			}
 			return r.fail("call %s not covered by the oracle", x.Name())
 		}
-		args := make(map[ssa.Value]AV, len(sc.Params))
-		for i, prm := range sc.Params {
-			if i < len(x.Call.Args) {
-				a := r.eval(x.Call.Args[i])
-				if a.Kind == "unknown" {
-					r.err = ""
-					a = AV{Kind: "sym", Sym: "arg:" + x.Call.Args[i].Name()}
-				}
-				args[prm] = a
-			}
+		var fval AV
+		if x.Call.StaticCallee() == nil {
+			fval = r.eval(x.Call.Value)
 		}
-		argVals := map[ssa.Value]ssa.Value{}
-		for i, prm := range sc.Params {
-			if i < len(x.Call.Args) {
-				argVals[prm] = x.Call.Args[i]
-			}
-		}
-		sub := &decideRun{fn: sc, depth: r.depth + 1, memo: map[ssa.Value]AV{}, parent: r, argVals: argVals, oracle: func(v ssa.Value) (AV, bool) {
-			if a, ok := args[v]; ok {
-				return a, true
-			}
-			// what the caller's oracle knows about callees (error constructors, predicates) holds in helpers too
-			if _, isCall := v.(*ssa.Call); isCall && r.oracle != nil {
-				return r.oracle(v)
-			}
-			return AV{}, false
-		}}
+		sub := r.subRun(sc, x.Call.Args, fval)
 		res, err := sub.run()
 		// what the helper stored into objects it allocated (and returns) stays readable by the caller
 		for k, v := range sub.mem {
@@ -408,7 +389,10 @@ func (r *decideRun) eval1(v ssa.Value) AV {
 	case *ssa.MakeInterface:
 		a := r.eval(x.X)
 		if a.Kind == "nil" {
-			return AV{Kind: "nonnil"} // typed nil in an interface is a non-nil interface
+			return AV{Kind: "nonnil", Dyn: x.X.Type()} // typed nil in an interface is a non-nil interface
+		}
+		if a.Dyn == nil {
+			a.Dyn = x.X.Type()
 		}
 		return a
 	case *ssa.Field:
@@ -443,8 +427,18 @@ func (r *decideRun) eval1(v ssa.Value) AV {
 	case *ssa.Function:
 		return AV{Kind: "func", Fn: x}
 	case *ssa.MakeClosure:
-		if f, ok := x.Fn.(*ssa.Function); ok && len(x.Bindings) == 0 {
-			return AV{Kind: "func", Fn: f}
+		if f, ok := x.Fn.(*ssa.Function); ok {
+			out := AV{Kind: "func", Fn: f}
+			saved := r.err
+			for _, b := range x.Bindings {
+				a := r.eval(b)
+				if a.Kind == "unknown" || a.Kind == "" {
+					a = AV{Kind: "sym", Sym: "bound:" + b.Name()}
+				}
+				out.Bind = append(out.Bind, a)
+			}
+			r.err = saved
+			return out
 		}
 	case *ssa.Lookup:
 		// a lookup with a decided key in a package-level table that is filled once, in init, with
@@ -668,7 +662,7 @@ func (r *decideRun) run() ([]AV, string) {
 				if x.Op == token.MUL {
 					if key, ok := r.addrKey(x.X); ok {
 						if _, covered := r.oracle(x); !covered {
-							if a, okL := r.loadMem(key, x.Type()); okL && a.Kind != "unknown" {
+							if a, okL := r.loadMem(key, x.Type()); okL && (a.Kind != "unknown" || a.Dyn != nil) {
 								r.memo[x] = a
 							}
 						}
@@ -724,6 +718,64 @@ func (r *decideRun) run() ([]AV, string) {
 	return nil, "step bound exceeded (loop?)"
 }
 
+// subRun prepares the evaluation of a call of sc made on r's path: parameters bound to the evaluated
+// arguments, captured variables to what the closure value fval holds, memory as the caller has it.
+func (r *decideRun) subRun(sc *ssa.Function, callArgs []ssa.Value, fval AV) *decideRun {
+	args := make(map[ssa.Value]AV, len(sc.Params))
+	for i, prm := range sc.Params {
+		if i < len(callArgs) {
+			saved := r.err
+			a := r.eval(callArgs[i])
+			if a.Kind == "unknown" {
+				// a struct handed over by value, built by a literal
+				if sv, ok := structLiteralAV(r, callArgs[i]); ok {
+					a = sv
+				} else {
+					a = AV{Kind: "sym", Sym: "arg:" + callArgs[i].Name()}
+				}
+			}
+			r.err = saved
+			args[prm] = a
+		}
+	}
+	for i, fv := range sc.FreeVars {
+		if i < len(fval.Bind) {
+			args[fv] = fval.Bind[i]
+		}
+	}
+	argVals := map[ssa.Value]ssa.Value{}
+	for i, prm := range sc.Params {
+		if i < len(callArgs) {
+			argVals[prm] = callArgs[i]
+		}
+	}
+	sub := &decideRun{fn: sc, depth: r.depth + 1, memo: map[ssa.Value]AV{}, parent: r, argVals: argVals, oracle: func(v ssa.Value) (AV, bool) {
+		if a, ok := args[v]; ok {
+			return a, true
+		}
+		// what the caller's oracle knows about callees (error constructors, predicates) holds in helpers too
+		if _, isCall := v.(*ssa.Call); isCall && r.oracle != nil {
+			return r.oracle(v)
+		}
+		// ... and what it knows about loads and type tests of the objects under decision (a rule that
+		// recognises them in a helper does so by the helper's own parameter)
+		switch v.(type) {
+		case *ssa.UnOp, *ssa.TypeAssert:
+			if r.oracle != nil {
+				return r.oracle(v)
+			}
+		}
+		return AV{}, false
+	}}
+	if len(r.mem) > 0 {
+		sub.mem = make(map[string]AV, len(r.mem))
+		for k, v := range r.mem {
+			sub.mem[k] = v
+		}
+	}
+	return sub
+}
+
 // DecideTrace is Decide plus the executed instruction sequence and an evaluator for values on it.
 func DecideTrace(fn *ssa.Function, oracle Oracle) (res []AV, trace []ssa.Instruction, eval func(ssa.Value) AV, err string) {
 	r := &decideRun{fn: fn, oracle: oracle, memo: map[ssa.Value]AV{}}
@@ -741,27 +793,34 @@ type CallEvent struct {
 	ArgFields []map[string]AV
 }
 
-// DecideCalls runs fn like Decide and reports, in execution order, the calls selected by want.
+// DecideCalls runs fn like Decide and reports, in execution order, the calls selected by want — also those
+// made inside functions of the module that the path calls (statically, or through a function value the path
+// decides: an entry of a dispatch table, a closure a factory returned), up to three levels deep.  A call
+// through a function value that cannot be decided, or a callee that cannot be followed to its end although
+// it may make a wanted call, leaves the question undecided.
 func DecideCalls(fn *ssa.Function, oracle Oracle, want func(ssa.CallInstruction) bool) ([]CallEvent, string) {
 	var evs []CallEvent
+	evErr := ""
 	r := &decideRun{fn: fn, oracle: oracle, memo: map[ssa.Value]AV{}, eventsOnly: true}
-	r.onCall = func(ci ssa.CallInstruction) {
-		if !want(ci) {
-			return
-		}
+	var visit func(run *decideRun, ci ssa.CallInstruction, depth int)
+	record := func(run *decideRun, ci ssa.CallInstruction) {
 		ev := CallEvent{Call: ci}
-		saved := r.err
+		saved := run.err
+		root := run
+		for root.parent != nil {
+			root = root.parent
+		}
 		for _, a := range ci.Common().Args {
-			av := r.eval(a)
+			av := run.eval(a)
 			ev.Args = append(ev.Args, av)
 			var t types.Type
 			flds := map[string]AV{}
 			if strings.HasPrefix(av.Sym, "alloc:") {
-				if al := r.allocs[av.Sym]; al != nil {
+				if al := root.allocs[av.Sym]; al != nil {
 					t = derefType(al.Type())
 				}
 				key := "a" + strings.TrimPrefix(av.Sym, "alloc:")
-				for k, v := range r.mem {
+				for k, v := range run.mem {
 					if strings.HasPrefix(k, key+".f") {
 						flds[strings.TrimPrefix(k, key)] = v
 					}
@@ -770,11 +829,166 @@ func DecideCalls(fn *ssa.Function, oracle Oracle, want func(ssa.CallInstruction)
 			ev.ArgTypes = append(ev.ArgTypes, t)
 			ev.ArgFields = append(ev.ArgFields, flds)
 		}
-		r.err = saved
+		run.err = saved
 		evs = append(evs, ev)
 	}
+	visit = func(run *decideRun, ci ssa.CallInstruction, depth int) {
+		if want(ci) {
+			record(run, ci)
+			return
+		}
+		cc := ci.Common()
+		if cc.IsInvoke() {
+			return
+		}
+		if _, isCall := ci.(*ssa.Call); !isCall {
+			return // deferred / spawned: not part of the path's own sequence
+		}
+		if _, isBuiltin := cc.Value.(*ssa.Builtin); isBuiltin {
+			return
+		}
+		callee := cc.StaticCallee()
+		var fval AV
+		if callee == nil {
+			saved := run.err
+			fval = run.eval(cc.Value)
+			run.err = saved
+			if fval.Kind != "func" || fval.Fn == nil {
+				// a callback handed in from outside the decided function cannot make the listener's /
+				// store's own calls; a value built on the path could
+				if run.parent == nil && suppliedFromOutside(cc.Value) {
+					return
+				}
+				if evErr == "" {
+					evErr = "call through the function value " + cc.Value.Name() + " in " + run.fn.Name() + " could not be decided"
+				}
+				return
+			}
+			callee = fval.Fn
+		}
+		if callee.Blocks == nil || callee.Pkg == nil || !strings.HasPrefix(callee.Pkg.Pkg.Path(), modPath) {
+			return
+		}
+		if !mayMakeWanted(callee, want, 3, map[*ssa.Function]bool{}) {
+			return
+		}
+		if depth >= 3 {
+			if evErr == "" {
+				evErr = "calls nested deeper than three levels below " + fn.Name()
+			}
+			return
+		}
+		sub := run.subRun(callee, cc.Args, fval)
+		sub.eventsOnly = true
+		sub.onCall = func(ci2 ssa.CallInstruction) { visit(sub, ci2, depth+1) }
+		if _, err := sub.run(); err != "" && evErr == "" {
+			evErr = "helper " + callee.Name() + ": " + err
+		}
+		// what the helper stored into objects it allocated stays readable by the caller
+		for k, v := range sub.mem {
+			if run.mem == nil {
+				run.mem = map[string]AV{}
+			}
+			if _, have := run.mem[k]; !have {
+				run.mem[k] = v
+			}
+		}
+	}
+	r.onCall = func(ci ssa.CallInstruction) { visit(r, ci, 0) }
 	_, err := r.run()
+	if err == "" {
+		err = evErr
+	}
 	return evs, err
+}
+
+// suppliedFromOutside: a function value the decided function was given by its caller: a parameter, or, in a
+// function literal, a captured parameter of the enclosing function.
+func suppliedFromOutside(v ssa.Value) bool {
+	switch x := v.(type) {
+	case *ssa.Parameter:
+		return true
+	case *ssa.UnOp:
+		// a variable captured by reference
+		if fv, ok := x.X.(*ssa.FreeVar); ok && x.Op == token.MUL {
+			return suppliedFromOutside(fv)
+		}
+	case *ssa.FreeVar:
+		fn := x.Parent()
+		outer := fn.Parent()
+		if outer == nil {
+			return false
+		}
+		idx := -1
+		for i, fv := range fn.FreeVars {
+			if fv == x {
+				idx = i
+			}
+		}
+		for _, b := range outer.Blocks {
+			for _, in := range b.Instrs {
+				mc, ok := in.(*ssa.MakeClosure)
+				if !ok || mc.Fn != ssa.Value(fn) || idx < 0 || idx >= len(mc.Bindings) {
+					continue
+				}
+				switch bnd := mc.Bindings[idx].(type) {
+				case *ssa.Parameter:
+					return true
+				case *ssa.FreeVar:
+					return suppliedFromOutside(bnd)
+				case *ssa.Alloc:
+					// the parameter's own variable: its only store is the parameter
+					n, fromParam := 0, false
+					for _, ref := range *bnd.Referrers() {
+						if st, isSt := ref.(*ssa.Store); isSt && st.Addr == ssa.Value(bnd) {
+							n++
+							_, fromParam = st.Val.(*ssa.Parameter)
+						}
+					}
+					return n == 1 && fromParam
+				}
+			}
+		}
+	}
+	return false
+}
+
+// mayMakeWanted: can fn, or a function it calls statically or creates (closures), make a wanted call?
+// Dynamic calls inside count as "may".
+func mayMakeWanted(fn *ssa.Function, want func(ssa.CallInstruction) bool, depth int, seen map[*ssa.Function]bool) bool {
+	if seen[fn] || fn.Blocks == nil {
+		return false
+	}
+	seen[fn] = true
+	for _, b := range fn.Blocks {
+		for _, in := range b.Instrs {
+			ci, ok := in.(ssa.CallInstruction)
+			if !ok {
+				continue
+			}
+			if want(ci) {
+				return true
+			}
+			cc := ci.Common()
+			if cc.IsInvoke() {
+				continue
+			}
+			if _, isBuiltin := cc.Value.(*ssa.Builtin); isBuiltin {
+				continue
+			}
+			sc := cc.StaticCallee()
+			if sc == nil {
+				if suppliedFromOutside(cc.Value) {
+					continue
+				}
+				return true
+			}
+			if depth > 0 && sc.Pkg != nil && strings.HasPrefix(sc.Pkg.Pkg.Path(), modPath) && mayMakeWanted(sc, want, depth-1, seen) {
+				return true
+			}
+		}
+	}
+	return false
 }
 
 type tableEntry struct {
